@@ -10,3 +10,4 @@ import Props.C20
 #print axioms C20.guarded_accesses_exclusive
 #print axioms C20.deadlock_without_order
 #print axioms C20.recursive_rlock_deadlocks
+#print axioms C20.escape_rule_unsatisfiable
